@@ -88,7 +88,8 @@ def key_role(ctx, L, rule="R-KEY-ROLE"):
                 else:
                     ok = len(a) == 2 and a[0] == ("p", "src_address")
                     dst = a[1] if len(a) == 2 else None
-                ok = ok and dst in (GLOBAL, ("p", "pdu_specific"))
+                from .common import ife_alts
+                ok = ok and dst is not None and all(a in (GLOBAL, ("p", "pdu_specific")) for a in ife_alts(dst))
                 if ok and (L.calls(r, "__send_tp_bam") or L.calls(r, "__send_tp_rts")):
                     ok = dst == (GLOBAL if bam else ("p", "pdu_specific"))
             inst = "%s send_pgn key of %s: %s" % (L.tag, table, pretty(key))
